@@ -144,6 +144,10 @@ def run(repo, rep, tier):
         miss = [ref[k] for k in set(ref) - set(cp)]
         rep.violation("R-POLY", MOD + ".orbital_equinox2equinox", "poly-copy",
                       "precession polynomial(s) differ between precession_ecliptical and orbital_equinox2equinox: %s" % "; ".join(miss)[:300], obligation=True)
+    # D4c the obliquity through which the ecliptical route is compared: a plain polynomial in T (no sign trap of a
+    # sexagesimal constructor), within 0.36 arcsec (1e-4 deg, the route tolerance) of the IAU cubic over +-5 centuries
+    from .c08 import obliquity
+    obliquity(repo, rep, span=5, tol=0.36, only_poly=True)
     fam = [(MOD, q) for q in ROUTINES + ["orbital_equinox2equinox", "p_motion_equa2eclip", "motion_in_space", "mean_obliquity"]]
     units.check_functions(repo, rep, fam)
     units.check_optypes(repo, rep, fam)
